@@ -379,6 +379,14 @@ def r9(ctx):
             ctx.check(not direct, "transactional:%s:no-direct-write" % name, "no item write bypasses the transaction", bd.where(direct[0].idx) if direct else bd.where(line=bd.line), bad_detail="%s calls %s outside the transaction" % (name, short((direct[0].term.callee or "")) if direct else ""))
 
 
+def r10(ctx):
+    """'Each transmitted fragment ... parses cleanly' (back-patched range stops: C09.R10) and 'every solicited response carries the
+    sequence number of the request it answers' (a request that differs only in its sequence number is a NEW request, answered with
+    its own sequence number, not an echo of the old response: C05.R2). Shared code."""
+    import c09, c05
+    c09.r10(ctx)
+    c05.r2(ctx)
+
 RULES = [
     ("C12.R1", "T8/T11", "sequence/UNS/FIR/FIN/CON provenance of every response header", r1),
     ("C12.R2", "T4", "no-response function codes and CONFIRM produce no response; all others do", r2),
@@ -389,4 +397,5 @@ RULES = [
     ("C12.R7", "T4/T2-region", "no request is swallowed: confirm waits end on / answer every fragment that needs a reply", r7),
     ("C12.R8", "T8-namesake", "session parameters (transmit buffer sizes, limits) are plumbed from the like-named configuration field", r_plumb),
     ("C12.R9", "T3", "item writers that can overflow the transmit buffer mid-object are transactional", r9),
+    ("C12.R10", "T3/T2", "fragments cut by a full buffer stay parseable (C09.R10); a repeat is recognised by sequence AND digest (C05.R2)", r10),
 ]
